@@ -4,6 +4,8 @@
 # http://docs.glueviz.org/en/stable/developer_guide/data.html and transparently
 # applying changes.
 
+import numpy as np
+
 from glue.core.hub import HubListener
 from glue.core.data import BaseCartesianData
 from glue.core.message import NumericalDataChangedMessage
@@ -147,6 +149,13 @@ class IndexedData(BaseCartesianData, HubListener):
                 else:
                     original_view[idim] = view[idim_reduced]
                 idim_reduced += 1
+        arrays = [v for v in original_view if isinstance(v, np.ndarray)]
+        if arrays:
+            # keep a pure tuple of index arrays: the fixed indices are broadcast
+            # against the index arrays instead of being mixed in as integers
+            shape = np.broadcast(*arrays).shape
+            original_view = [v if isinstance(v, np.ndarray) else np.full(shape, v)
+                             for v in original_view]
         return tuple(original_view)
 
     def register_to_hub(self, hub):
